@@ -209,4 +209,76 @@ example : extract true false
      ⟨0, 10, 1/4, [5], some (1/4)⟩, ⟨1, 8, 1/2, [6, 7], some (1/2)⟩]
     = some ([⟨1/4, 1/4, 5/2, 1/4⟩, ⟨3/2, 1/2, 4, 1/2⟩], true) := by decide +kernel
 
+/-- the extraction refuses (the code raises `RuntimeError`) exactly when some track that would contribute
+    a row carries no minimum observable duration -/
+theorem extraction_refuses_iff (excl : Bool) (tracks : List Track) :
+    extract excl false tracks = none ↔ ∃ t ∈ tracks, keep excl t = true ∧ t.minObs = none :=
+  extract_none_iff' excl tracks
+
+/-- the `removed_zeros` flag (which triggers the "Some dwell times are zero" warning) is set exactly when a
+    track that is not excluded as ambiguous has no positive duration — in either minimum-time mode -/
+theorem extraction_removed_flag (excl om : Bool) (tracks : List Track) (rows : List Row) (rem : Bool)
+    (h : extract excl om tracks = some (rows, rem)) : rem = tracks.any (zeroDwell excl) :=
+  extract_removed' excl om tracks rows rem h
+
+example : extract false false [⟨0, 10, 1/4, [1, 2], none⟩] = none := by decide +kernel
+
+/-! ## The analytic gradient (ext) -/
+
+/-- ext `gradient_continuous_correct` (amplitudes): for the continuous model, any number of components, any
+    position of the component, finite or infinite upper limit: the derivative of the log-likelihood of
+    one observation with respect to a component's amplitude (the other parameters fixed, amplitudes
+    treated as independent, as SLSQP does) IS the expression the code computes for it — provided the
+    code's amplitude clip (`a ≥ 1e-14`) and its `t_max/τ < 1e10` mask are inactive. The Jacobian handed
+    to the optimiser is minus the sum of these per-observation terms (by definition of `jacobian`). -/
+theorem gradient_continuous_correct_amp (pre post : List (Comp ℝ)) (a0 tau t tmin : ℝ) (tmax : Option ℝ)
+    (hadm : Admissible (pre ++ ⟨a0, tau⟩ :: post))
+    (hclip : ∀ c ∈ pre ++ ⟨a0, tau⟩ :: post, (1.0e-14 : ℝ) ≤ c.amp)
+    (hwin : ∀ m, tmax = some m → tmin < m)
+    (hvalid : ∀ c ∈ pre ++ ⟨a0, tau⟩ :: post, ∀ m, tmax = some m → m / c.tau < (1.0e10 : ℝ)) :
+    HasDerivAt (fun a => logLikObs (pre ++ ⟨a, tau⟩ :: post) ⟨t, tmin, tmax, none⟩)
+      (((gradObsCont (pre ++ ⟨a0, tau⟩ :: post) t tmin tmax).getD pre.length (0, 0)).1) a0 := by
+  have hne : ∀ a : ℝ, pre ++ (⟨a, tau⟩ : Comp ℝ) :: post ≠ [] := fun a => by simp
+  have h0 := hadm ⟨a0, tau⟩ (by simp)
+  rw [gradObsCont_eq_spec _ (hne a0) hadm hclip t tmin tmax hwin hvalid, getD_map_mid]
+  have hw : ∀ c ∈ pre ++ ⟨a0, tau⟩ :: post, specE tmax c.tau < Real.exp (-tmin / c.tau) :=
+    fun c hc => specE_lt tmin tmax c.tau (hadm c hc).2 hwin
+  refine (hasDerivAt_logpdf_amp pre post a0 tau t tmin tmax (specP_pos _ (hne a0) hadm t)
+    (specNormCont_pos _ (hne a0) hadm tmin tmax hw)).congr_of_eventuallyEq ?_
+  filter_upwards [Ioi_mem_nhds h0.1] with a ha
+  exact logLikObs_eq_log_spec _ (hne a) (admissible_replace pre post _ ⟨a, tau⟩ hadm ⟨ha, h0.2⟩)
+    tmin t tmax hwin
+
+/-- ext `gradient_continuous_correct` (lifetimes): the same for the derivative with respect to a
+    component's lifetime, including the boundary term `t_max·e^{−t_max/τ}` of the normalisation. -/
+theorem gradient_continuous_correct_tau (pre post : List (Comp ℝ)) (a tau0 t tmin : ℝ) (tmax : Option ℝ)
+    (hadm : Admissible (pre ++ ⟨a, tau0⟩ :: post))
+    (hclip : ∀ c ∈ pre ++ ⟨a, tau0⟩ :: post, (1.0e-14 : ℝ) ≤ c.amp)
+    (hwin : ∀ m, tmax = some m → tmin < m)
+    (hvalid : ∀ c ∈ pre ++ ⟨a, tau0⟩ :: post, ∀ m, tmax = some m → m / c.tau < (1.0e10 : ℝ)) :
+    HasDerivAt (fun tau => logLikObs (pre ++ ⟨a, tau⟩ :: post) ⟨t, tmin, tmax, none⟩)
+      (((gradObsCont (pre ++ ⟨a, tau0⟩ :: post) t tmin tmax).getD pre.length (0, 0)).2) tau0 := by
+  have hne : ∀ tau : ℝ, pre ++ (⟨a, tau⟩ : Comp ℝ) :: post ≠ [] := fun tau => by simp
+  have h0 := hadm ⟨a, tau0⟩ (by simp)
+  rw [gradObsCont_eq_spec _ (hne tau0) hadm hclip t tmin tmax hwin hvalid, getD_map_mid]
+  have hw : ∀ c ∈ pre ++ ⟨a, tau0⟩ :: post, specE tmax c.tau < Real.exp (-tmin / c.tau) :=
+    fun c hc => specE_lt tmin tmax c.tau (hadm c hc).2 hwin
+  refine (hasDerivAt_logpdf_tau pre post a tau0 t tmin tmax h0.2 (specP_pos _ (hne tau0) hadm t)
+    (specNormCont_pos _ (hne tau0) hadm tmin tmax hw)).congr_of_eventuallyEq ?_
+  filter_upwards [Ioi_mem_nhds h0.2] with tau htau
+  exact logLikObs_eq_log_spec _ (hne tau) (admissible_replace pre post _ ⟨a, tau⟩ hadm ⟨h0.1, htau⟩)
+    tmin t tmax hwin
+
+-- non-vacuity: the clip and mask hypotheses hold for the `Admissible` instance above with `tmax = 10`
+example : (1.0e-14 : ℝ) ≤ 0.3 ∧ (10 : ℝ) / 0.5 < 1.0e10 := by norm_num
+
+/-
+  ext `gradient_discrete_correct` — NOT PROVED (stated, left outside):
+    for the discretised model (`o.step = some Δ`, `Δ > 0`, `tmin − Δ < tmax`), under the same clip/mask
+    hypotheses, `HasDerivAt (fun a => logLikObs (pre ++ ⟨a, τ⟩ :: post) o) ((gradObsDisc …).getD pre.length (0,0)).1 a0`
+    and the analogous statement in `τ` with `.2`.
+  Covered instead by the correspondence of `gradObsDisc` with the code's Jacobian and by the 6th-order numerical
+  gradient of the oracle on every `lik` case.
+-/
+
 end Verif.C15
